@@ -54,14 +54,16 @@ def inWire (w : World) (e : String) : List WireFrame := if e == "A" then w.toA e
 def setInWire (w : World) (e : String) (fs : List WireFrame) : World :=
   if e == "A" then { w with toA := fs } else { w with toB := fs }
 def peerSent (w : World) (e : String) : Array WireFrame := if e == "A" then w.sentB else w.sentA
+def ownSent (w : World) (e : String) : Array WireFrame := if e == "A" then w.sentA else w.sentB
 
 def parseIV (w0 tail : String) : Option IV := do
   let n ← w0.toNat?
   let t ← if tail == "-" then some [] else unhexAux tail.toList
   pure ⟨n, t⟩
 
-/-- wire spec: `h<i>[/f<flag>][/noiv][/iv:<w0>:<tailhex>]` or `r<flag>:<payload>` -/
-def parseSpec (sent : Array WireFrame) (spec : String) : Option WireFrame :=
+/-- wire spec: `h<i>[/f<flag>][/noiv][/iv:<w0>:<tailhex>]` (frame i the PEER emitted), `o<i>[…]`
+    (frame i this endpoint itself emitted: reflection) or `r<flag>:<payload>` -/
+def parseSpecFrom (sent : Array WireFrame) (spec : String) : Option WireFrame :=
   if spec.startsWith "r" then
     match (spec.drop 1).toString.splitOn ":" with
     | fl :: rest => do
@@ -69,7 +71,7 @@ def parseSpec (sent : Array WireFrame) (spec : String) : Option WireFrame :=
       let b ← parsePayload (":".intercalate rest)
       pure ⟨flag, b.length, .raw b⟩
     | _ => none
-  else if spec.startsWith "h" then
+  else if spec.startsWith "h" || spec.startsWith "o" then
     match (spec.drop 1).toString.splitOn "/" with
     | idx :: mods => do
       let i ← idx.toNat?
@@ -94,6 +96,9 @@ def parseSpec (sent : Array WireFrame) (spec : String) : Option WireFrame :=
       pure { f' with len := f'.body.wireLen }
     | _ => none
   else none
+
+def parseSpec (peer own : Array WireFrame) (spec : String) : Option WireFrame :=
+  if spec.startsWith "o" then parseSpecFrom own spec else parseSpecFrom peer spec
 
 def boolStr (b : Bool) : String := if b then "1" else "0"
 
@@ -206,7 +211,7 @@ def step (w : World) (toks : List String) : World × String :=
       | .ok s' => (setEp w e s', "ok")
     | _ => (w, "bad-op")
   | "wire" :: e :: specs =>
-    match specs.mapM (parseSpec (peerSent w e)) with
+    match specs.mapM (parseSpec (peerSent w e) (ownSent w e)) with
     | some fs => (setInWire w e fs, "ok")
     | none => (w, "bad-op")
   | ["export", e] =>
